@@ -72,7 +72,9 @@ impl Group {
     pub fn new(rng: &mut Rng) -> Group {
         let h = rng.range(2, 5000);
         let t = rng.range(1_500_000_000, 1_900_000_000);
-        Group { w: World::new(h, t) }
+        let mut w = World::new(h, t);
+        w.block.time = w.block.time.plus_nanos(rng.below(1_000_000_000));
+        Group { w }
     }
     pub fn instantiate(&mut self, admin: Option<String>, members: &[(String, u64)]) -> Res<Response> {
         let msg = InstantiateMsg {
@@ -210,6 +212,10 @@ pub fn gen_members(rng: &mut Rng, hostile: bool) -> Vec<(String, u64)> {
         let w = if hostile { gen_weight(rng) } else { rng.below(20) };
         v.push((a, w));
     }
+    if hostile && rng.chance(1, 4) && !v.is_empty() {
+        let d = rng.pick(&v).clone();
+        v.push(d); // the same entry twice, verbatim
+    }
     v
 }
 
@@ -252,6 +258,10 @@ pub fn gen_op(rng: &mut Rng, s: &Snap, former_admins: &[String]) -> (String, Op)
             if rng.chance(1, 12) && !remove.is_empty() {
                 let d = remove[0].clone();
                 remove.push(d); // duplicate removal
+            }
+            if rng.chance(1, 15) && !add.is_empty() {
+                let d = add[0].clone();
+                add.push(d); // the same entry twice, verbatim
             }
             Op::UpdateMembers { add, remove }
         }
